@@ -3638,35 +3638,53 @@ def sub_frame(name, new_stream=False):
     return frame
 
 
+PEEKS = {"_parse_pack_info": 6, "_parse_unpack_info": 7}      # parsers that read their own id byte and step back when it is not theirs
+
+
+def peek_facts(name, s, p):
+    """PackInfo / UnpackInfo parsers called where the next byte is not their id: a no-op (stream left where it was) unless not even that
+    byte can be read -- the `none` case of the verified PackInfo contract (and of the BOUNDED UnpackInfo one)"""
+    END, FAIL = sub_end(name)
+    L = SLEN(s)
+    return z3.And(z3.Implies(p + 1 > L, FAIL(s, p)),
+                  z3.Implies(z3.And(p + 1 <= L, SB(s, p) != bv(PEEKS[name])), z3.And(z3.Not(FAIL(s, p)), END(s, p) == p)))
+
+
 def sub_view(name, new_stream=False, note=""):
     END, FAIL = sub_end(name)
 
     def S0(c):
         return stream_of(c).t
+    hy = (lambda c: peek_facts(name, S0(c), pos0(c))) if name in PEEKS else None
     ens = [("returns-only-if-the-section-is-accepted", lambda c: z3.Not(FAIL(S0(c), pos0(c))))]
     if not new_stream:
         ens.append(("stream-left-at-the-end-of-the-section", lambda c: pos1(c) == END(S0(c), pos0(c))))
     return FnContract(target=f"{RD}.{name}", assumed=True, params=[("self", p_reader())], requires=req_stream, frame=sub_frame(name, new_stream),
-                      ensures=ens, raises=[Raises(BAD, sub=True, when=lambda c: FAIL(S0(c), pos0(c)))],
+                      hyps=hy, ensures=ens, raises=[Raises(BAD, sub=True, when=lambda c: FAIL(S0(c), pos0(c)))],
                       result_maker=lambda ex, st, ctx: VUnk(f"{name}-result"),
                       note=note or "call-site view: ghost event (name, stream, position); end position / refusal are functions of (stream, position)")
 
 
 def trace_goal(slots, evs):
-    """the recorded section-parser calls `evs` are exactly the slots whose condition holds, in slot order, each at its stream position"""
+    """the recorded section-parser calls `evs` are exactly the slots whose condition holds, in slot order, each at its stream position;
+    besides them only no-op calls: a PackInfo / UnpackInfo parser asked at a byte that is not its id (it steps back)"""
     import itertools as _it
     alts = []
-    for idxs in _it.combinations(range(len(slots)), len(evs)):
-        if any(slots[i][0] != evs[j][0] for j, i in enumerate(idxs)):
-            continue
-        g = []
-        for i, (_n, called, s_, p_) in enumerate(slots):
-            if i in idxs:
-                ev = evs[idxs.index(i)]
-                g += [called, ev[1] == s_, ev[2] == p_]
-            else:
-                g.append(z3.Not(called))
-        alts.append(z3.And(g + [z3.BoolVal(True)]))
+    for m in range(min(len(slots), len(evs)) + 1):
+        for chosen in _it.combinations(range(len(evs)), m):
+            for idxs in _it.combinations(range(len(slots)), m):
+                if any(slots[i][0] != evs[j][0] for j, i in zip(chosen, idxs)):
+                    continue
+                if any(evs[j][0] not in PEEKS for j in range(len(evs)) if j not in chosen):
+                    continue
+                g = [SB(evs[j][1], evs[j][2]) != bv(PEEKS[evs[j][0]]) for j in range(len(evs)) if j not in chosen]
+                for i, (_n, called, s_, p_) in enumerate(slots):
+                    if i in idxs:
+                        ev = evs[chosen[idxs.index(i)]]
+                        g += [called, ev[1] == s_, ev[2] == p_]
+                    else:
+                        g.append(z3.Not(called))
+                alts.append(z3.And(g + [z3.BoolVal(True)]))
     return z3.Or(alts) if alts else z3.BoolVal(False)
 
 
@@ -4010,6 +4028,32 @@ def facade_contracts():
                 goal.append(z3.BoolVal(isinstance(c.result, VExt) and c.result is r))
             return z3.And(goal)
         return f
+
+    def fi_post(c):
+        d = c.st.obj(c.args["self"].ref).data
+        fl = d.get("_file")
+        return z3.And(z3.BoolVal(d.get("_reader") is NONE), fl.t == c.args["file"].t if isinstance(fl, VExt) else z3.BoolVal(False),
+                      c.args["mode"].t == z3.StringVal("r"))
+
+    out.append(FnContract(
+        target=f"{SEVEN}::SevenZipFile.__init__",
+        params=[("self", p_obj("SevenZipFile", {})), ("file", p_ext("ArchiveFile")), ("mode", p_alts(p_const("r"), p_str())), ("password", p_unk())],
+        modifies=("self",),
+        ensures=[("not-opened-yet-on-the-given-file-read-mode-only", internal(fi_post))],
+        raises=[Raises(BAD, sub=True, when=lambda c: c.args["mode"].t != z3.StringVal("r"), label="a mode other than 'r'")],
+        note="construction does not touch the file; the reader is built by __enter__"))
+
+    def fx_post(c):
+        d = c.st.obj(c.args["self"].ref).data
+        r = c.result
+        falsy = r is NONE or (isinstance(r, VBool) and r.const() is False)
+        return z3.And(z3.BoolVal(d.get("_reader") is NONE), z3.BoolVal(bool(falsy)))
+
+    out.append(FnContract(
+        target=f"{SEVEN}::SevenZipFile.__exit__",
+        params=[("self", facade()), ("exc_type", p_unk()), ("exc_val", p_unk()), ("exc_tb", p_unk())], modifies=("self",),
+        ensures=[("reader-dropped-and-a-falsy-result-so-an-exception-of-the-body-propagates", internal(fx_post))], raises=[], total=True,
+        note="PEP 343: a falsy __exit__ result re-raises the body's exception (a member failure must not be swallowed with the archive)"))
 
     for meth, extra in (("list", []), ("needs_password", []), ("extractall", [("path", p_str())])):
         rs = [Raises(BAD, sub=True, label="archive not opened" + (" / extraction failed" if extra else ""),
